@@ -509,6 +509,9 @@ def impl_select(kind, dims, sel, arg, nm="r"):
     # … and inhabitants whose names start with the same characters: a second tree `<nm>2`, a unit `<nm>_cfg`
     g.add_nodes_as_tree(nm + "2", [2, 2], "router", "link", connect=True)
     g.add_node(nm + "_cfg", type="endpoint")
+    if kind in ("tree", "tree-scalar") and dims[0] == 1:
+        # … and, next to a single-rooted tree, a second tree called `<nm>_1`
+        g.add_nodes_as_tree(nm + "_1", [2, 2], "router", "link", connect=True)
     try:
         if sel == "range":
             return {"nodes": g.get_nodes_from_range(nm, [tuple(p) for p in arg])}
@@ -554,7 +557,8 @@ def impl_level_via_network(tree, lvl, nm="r", flip=False, auto=True):
            "protocols": prot,
            "endpoints": [{"name": "ep", "array": [cnt], "addr_range": {"base": 0x1000, "size": 0x100},
                           "mgr_port_protocol": ["axi_in"], "sbr_port_protocol": ["axi_out"]}],
-           "routers": [dict({"name": nm, "tree": list(tree)}, **({} if auto else {"auto_connect": False})),
+           "routers": [{"name": nm + "_1", "tree": [2, 2]}] * (1 if tree[0] == 1 else 0) +
+                      [dict({"name": nm, "tree": list(tree)}, **({} if auto else {"auto_connect": False})),
                        {"name": nm + "2", "tree": [2]}],
            "connections": [con]}
     try:
